@@ -524,7 +524,9 @@ class Project(MessageHandler):
         # Primary: priority (desc), Secondary: pathcriticalness (desc), Tertiary: seqno (asc)
         # Note: attributes might return None, need safe access for sorting
         def sort_key(t: Any) -> tuple[int, float, int]:
-            prio = t.get("priority", scIdx) or 500
+            prio = t.get("priority", scIdx)
+            if prio is None:  # (a priority of 0 is a value, not a missing one)
+                prio = 500
             crit = t.get("pathcriticalness", scIdx) or 0.0
             seq = t.get("seqno") or 0
             return (-prio, -crit, seq)
